@@ -1,12 +1,12 @@
 from common import WORLD_TB, WORLD_ASSUME, SCEN_RULE
 
 PROP = {
-    "suites": ["scn-pretend", "scn-mixed"],
+    "suites": ["scn-pretend", "scn-mixed", "bin", "binovl"],
     "lean_modules": ["Lc.Props.C15"],
     "leanchecker": True,
     "trusted_base": WORLD_TB,
     "assumptions": WORLD_ASSUME + [
-        "the in-process runs install the pretender exactly as getArgs does (fs.WriteOK = fs.MakePretender(pretend, ...)); argument parsing of cmd/layercake is covered by the binary-level suite when enabled",
+        "the in-process runs install the pretender exactly as getArgs does (fs.WriteOK = fs.MakePretender(pretend, ...)); argument parsing and pretender installation of cmd/layercake are covered by the binary-level suites bin/binovl: the real binary with -p/--p/-p=true at arbitrary positions inside a private mount namespace with real mounts (base layers: full model comparison incl. the CLI model Lc/Model/Cli.lean; derived layers with a real overlay: oracle only)",
     ],
     "rule": SCEN_RULE + " C15 oracle: every step run with the pretend switch must leave tree and mount table identical and issue no syscall.",
 }
@@ -14,6 +14,6 @@ PROP = {
 META = {
     "text": "Lean theorem pretend_noop: for every command, argument vector, forest, tree, mount table, process assignment and fault/crash setting, a run of the command model with the pretend switch leaves file system and mount table unchanged, attempts no operation and passes no fault point (proved by Hoare-style invariant over every function of the model of package manage, VCs by mvcgen, checked by the kernel). The model is tied to the Go code by differential scenario runs (pretend on 60% of the steps) and the oracle judges the implementation's own before/after observations.",
     "design_ref": "§4 C15",
-    "note": "Trusted: Lean kernel, the environment models (Fs, Kernel), the correspondence harness. Modelled, not verified: argument parsing in cmd/layercake (ParseArgsSetFlags), debug printing. The call-site facts (every mutator behind WriteOK, every command installs the pretender) are stated in DESIGN.md §4 C15 with their status.",
+    "note": "Trusted: Lean kernel, the environment models (Fs, Kernel), the correspondence harness. Argument parsing (Go flag rules, ParseArgsSetFlags, per-command switches and argument counts) is modelled in Lc/Model/Cli.lean and compared with the real binary; no theorem about it yet. Debug printing is not modelled. The call-site facts (every mutator behind WriteOK, every command installs the pretender) are stated in DESIGN.md §4 C15 with their status.",
     "technique": "Lean 4 proof (Hoare-style invariant via Std.Do/mvcgen over the command model) + differential correspondence",
 }
